@@ -24,6 +24,7 @@ func (SimpleHashScheme) Block(h tmconsensus.Header) ([]byte, error) {
 	// Serialize the previous commit proof.
 	// First iterate over the voted blocks in order.
 	prevCommitBlocks := make([]string, 0, len(h.PrevCommitProof.Proofs))
+	rawKeys := make(map[string]string, len(h.PrevCommitProof.Proofs))
 	for bh := range h.PrevCommitProof.Proofs {
 		var blockKey string
 		if bh == "" {
@@ -32,6 +33,7 @@ func (SimpleHashScheme) Block(h tmconsensus.Header) ([]byte, error) {
 			blockKey = fmt.Sprintf("%x", bh)
 		}
 		prevCommitBlocks = append(prevCommitBlocks, blockKey)
+		rawKeys[blockKey] = bh
 	}
 	sort.Strings(prevCommitBlocks)
 
@@ -41,7 +43,8 @@ func (SimpleHashScheme) Block(h tmconsensus.Header) ([]byte, error) {
 		}
 		buf.WriteString(blockHash)
 		buf.WriteString(" => (")
-		sigs := h.PrevCommitProof.Proofs[blockHash]
+		// The proofs map is keyed by the raw block hash, not by its formatted form.
+		sigs := h.PrevCommitProof.Proofs[rawKeys[blockHash]]
 
 		sigStrings := make([]string, len(sigs))
 		for j, sig := range sigs {
